@@ -136,10 +136,10 @@ func c15Payload(k c15Pkt, dir proto.Direction, pr proto.Protocol, unreg []int, s
 		locales := []string{"en_US", "de_DE", "", "zh_CN", "en_us_pirate00"}
 		out := verifkit.RefVarInt(int32(id))
 		out = append(out, verifkit.RefString(locales[r.next()%uint64(len(locales))])...)
-		out = append(out, byte(r.next()%33))                      // view distance
+		out = append(out, byte(r.next()%33))                        // view distance
 		out = append(out, verifkit.RefVarInt(int32(r.next()%3))...) // chat mode
-		out = append(out, byte(r.next()%2))                       // chat colours
-		out = append(out, byte(r.next()%128))                     // skin parts
+		out = append(out, byte(r.next()%2))                         // chat colours
+		out = append(out, byte(r.next()%128))                       // skin parts
 		if pr.GreaterEqual(version.Minecraft_1_9) {
 			out = append(out, verifkit.RefVarInt(int32(r.next()%2))...) // main hand
 		}
